@@ -534,6 +534,7 @@ func TestRaceChangeSetSnapshots(t *testing.T) {
 			return m
 		}
 		nd0 := len(open().GetDeletes())
+		validChanges := map[int]bool{0: true}
 		validDeletes := map[int]bool{nd0: true}
 		rootIdx := map[string]int{string(groot): 0} // root -> number of writer operations applied (-1: reached twice)
 		delCounts := []int{nd0}
@@ -546,6 +547,7 @@ func TestRaceChangeSetSnapshots(t *testing.T) {
 				}
 				r, c, d, _ := m.GetChanges()
 				ref[string(r)] = snap{len(c), len(d)}
+				validChanges[len(c)] = true
 				nd := len(m.GetDeletes())
 				validDeletes[nd] = true
 				delCounts = append(delCounts, nd)
@@ -635,6 +637,11 @@ func TestRaceChangeSetSnapshots(t *testing.T) {
 					}
 					if len(changes) != want.changes || len(deletes) != want.deletes {
 						fail("torn change set: root %x belongs to %d changes / %d deletes, GetChanges returned %d / %d", root, want.changes, want.deletes, len(changes), len(deletes))
+						return
+					}
+					// the change count on its own is that of some prefix of the writer's sequence too
+					if cnt := mpt.GetChangeCount(); !validChanges[cnt] {
+						fail("GetChangeCount returned %d; after no prefix of the writer's sequence are there that many changed nodes", cnt)
 						return
 					}
 					// GetDeletes on its own is atomic too: its size is that of some prefix of the writer's sequence
